@@ -1,0 +1,7 @@
+//go:build verif
+
+package generator
+
+// VerifC16EscapeQuotes exposes escapeQuotes (strconv.Quote without the outer quotes), the function every
+// piece of static text passes through before it is appended to a literal.
+func VerifC16EscapeQuotes(s string) string { return escapeQuotes(s) }
